@@ -633,7 +633,7 @@ class AsyncClient(base_client.BaseClient):
                 self.queue.task_done()
                 packets = []
             else:
-                while True:
+                while len(packets) < payload.Payload.max_decode_packets:
                     try:
                         packets.append(self.queue.get_nowait())
                     except self.queue.Empty:
